@@ -1,7 +1,7 @@
 """C02 — float->decimal round-trips and is shortest: tables and constants only (DESIGN §4)."""
 from rules import tbl_write_float as W
 from rules import extra as X
-from rules.core import guarded
+from rules.core import guarded, guarded_soft
 
 INFO = {
     "explanation": "Every constant the Dragonbox (non-compact) and Grisu (compact) digit generation depends on is compared with its mathematical definition: 78+619 cached powers of five, the k-range reachable from every finite exponent (the bound the unchecked table index relies on), modular inverses, magic divisors, the five floor_log* multiplier triples, 87 Grisu cached powers and their exponent formula.",
@@ -17,11 +17,11 @@ def run(col, configs, tier):
         guarded(col, W.rule_floor_logs, facts, tier)
         guarded(col, W.rule_dragonbox_integer_window, facts)
         guarded(col, W.rule_grisu, facts)
-        guarded(col, X.rule_divisibility_test, facts)
-        guarded(col, X.rule_grisu_weed, facts)
-        guarded(col, X.rule_grisu_boundaries, facts)
-        guarded(col, X.rule_dragonbox_left_endpoint, facts)
-        guarded(col, X.rule_grisu_margins, facts)
-        guarded(col, X.rule_nearest_shorter_left_endpoint, facts)
-        guarded(col, X.rule_grisu_mul_rounds, facts)
-        guarded(col, X.rule_jeaiii, facts)
+        guarded_soft(col, X.rule_divisibility_test, facts)
+        guarded_soft(col, X.rule_grisu_weed, facts)
+        guarded_soft(col, X.rule_grisu_boundaries, facts)
+        guarded_soft(col, X.rule_dragonbox_left_endpoint, facts)
+        guarded_soft(col, X.rule_grisu_margins, facts)
+        guarded_soft(col, X.rule_nearest_shorter_left_endpoint, facts)
+        guarded_soft(col, X.rule_grisu_mul_rounds, facts)
+        guarded_soft(col, X.rule_jeaiii, facts)
